@@ -84,6 +84,7 @@ func c19Run(r *Run) {
 	if npkg == nil || dpkg == nil {
 		return
 	}
+	freshMapResolve = r.declAnywhere
 	info := npkg.TypesInfo
 	cg := r.lookupType(npkg, "ClassGeneric")
 	cs := r.lookupType(npkg, "ClassStatement")
@@ -247,6 +248,14 @@ func c19Run(r *Run) {
 						mapField[st.Field(i)] = true
 					}
 				}
+				if len(mapField) == 0 {
+					// the bound types may be kept positionally, in a slice parallel to the declared parameters
+					for i := 0; i < st.NumFields(); i++ {
+						if sl, ok := st.Field(i).Type().Underlying().(*types.Slice); ok && isNamed(sl.Elem(), modPath+"/data", "Types") {
+							mapField[st.Field(i)] = true
+						}
+					}
+				}
 			}
 		}
 		if len(mapField) == 0 {
@@ -259,6 +268,7 @@ func c19Run(r *Run) {
 			return false
 		}
 		okMap, seen := true, false
+		nOwn, nAliased := 0, 0
 		ast.Inspect(clone.Body, func(n ast.Node) bool {
 			var value ast.Expr
 			switch x := n.(type) {
@@ -291,10 +301,15 @@ func c19Run(r *Run) {
 				return true
 			})
 			if aliased {
-				okMap = false
+				nAliased++
+			} else {
+				nOwn++
 			}
 			return true
 		})
+		// with a positional representation the declared parameter list is a candidate too and is shared
+		// on purpose: it is enough that one container of the new instantiation is its own
+		okMap = nOwn > 0 && (nAliased == 0 || len(mapField) > 1)
 		key := funcKey(npkg, clone) + "#own-map"
 		if seen && okMap {
 			r.ok(key, clone.Pos(), "the clone stores the map it is given, not the receiver's map")
@@ -534,6 +549,9 @@ func firstKey(m map[string]*ast.FuncDecl) string {
 	return ks[0]
 }
 
+// freshMapResolve finds the declaration of a function of another module package (set by c19Run).
+var freshMapResolve func(*types.Func) (*packages.Package, *ast.FuncDecl)
+
 // freshMapExpr: e builds a new map in this call: make(map…), a composite literal, or a call of a package
 // function every map-typed return of which is such a fresh map (built in that function).
 func freshMapExpr(info *types.Info, p *packages.Package, e ast.Expr, depth int) bool {
@@ -548,6 +566,17 @@ func freshMapExpr(info *types.Info, p *packages.Package, e ast.Expr, depth int) 
 			return false
 		}
 		callee := calleeOf(info, rv)
+		// a helper of another package of the module (data.BindTypeArguments): judged in its own package
+		if cf, ok := callee.(*types.Func); ok && cf.Pkg() != nil && cf.Pkg() != p.Types && freshMapResolve != nil {
+			if hp, hd := freshMapResolve(cf); hd != nil {
+				p, info = hp, hp.TypesInfo
+				callee = hp.TypesInfo.Defs[hd.Name]
+			}
+		}
+		// a conversion to a named map type keeps the identity of the map
+		if tv, ok := info.Types[rv.Fun]; ok && tv.IsType() && len(rv.Args) == 1 {
+			return freshMapExpr(info, p, rv.Args[0], depth)
+		}
 		for _, fd := range funcDecls(p) {
 			if info.Defs[fd.Name] != callee {
 				continue
